@@ -553,7 +553,8 @@ PROPS["C10"] = dict(
          "destroying the pool with jobs pending, or by terminate() then destruction. terminate: terminate() from a "
          "job, from an outside thread, or from outside while every worker is idle, with one or two "
          "loop_until_terminate() waiters. rendezvous (serial): k <= p jobs that wait for each other, enqueued back to "
-         "back from outside or from a job. Checked from the recorded tickets: no job twice, every job enqueued before "
+         "back from outside or from a job. Every job closure captures an object by value whose destructor records a ticket: tearing the closure down is part of the "
+         "job. Checked from the recorded tickets: no job twice, every job enqueued before "
          "a loop_until_empty() call done at its return, the waiter's interval not covered by pending jobs, done() and "
          "plain writes after a quiet return, no job running when loop_until_terminate()/~ThreadPool return; dsched "
          "reports deadlocks. mode=serial: seeded controlled schedules (random, sticky, PCT-style); mode=jitter: real "
